@@ -736,6 +736,25 @@ def template_cover(ctx):
     loops = [(b, t) for b, t in fa.calls()
              if any(strip_generics(x).endswith("::next") for x in callee_paths(t))
              and show(S.operand(t["args"][0])).endswith(".captures")]
+    zipped = False
+    if not loops:
+        # the captures iterated together with something else (`starts.zip(&template.captures)`)
+        def over_captures(op):
+            work, n_ = [op], 0
+            while work and n_ < 60:
+                n_ += 1
+                x = work.pop()
+                ap = E.ap_operand(fa, x)
+                if ap is not None and "captures" in [str(e) for e in ap.proj]:
+                    return True
+                o = fa.origin(x)
+                if o[0] == "call":
+                    work.extend(o[2]["args"])
+            return False
+        loops = [(b, t) for b, t in fa.calls()
+                 if any(strip_generics(x).endswith("::next") for x in callee_paths(t))
+                 and over_captures(t["args"][0])]
+        zipped = True
     uses = [b for b, t in fa.calls()
             if {strip_generics(x).rsplit("::", 1)[-1] for x in callee_paths(t)} & {"entry", "insert", "get"}
             and len(t["args"]) >= 2 and "HashMap" in " ".join(callee_paths(t))]
@@ -771,11 +790,13 @@ def template_cover(ctx):
                         if len(fa.defs().get(s["lhs"]["l"], [])) >= 2:
                             cur_blocks.append(b)
         ok2 = ok_end and bool(cur_blocks) and any(H not in fa.reachable(some_t, avoid={b}) for b in cur_blocks)
-    ctx.ob("TEMPLATE", "cursor-moves-to-capture-end", ok2, loc,
-           "the literal segment ends at capture.start and the cursor is set to capture.end on "
-           "every iteration" if ok2 else
-           "the cursor is not moved to the end of the placeholder on every iteration (or the "
-           "literal does not stop at its start): placeholder text is copied or literals are lost")
+    undecided = zipped and not ok2
+    if not undecided:
+        ctx.ob("TEMPLATE", "cursor-moves-to-capture-end", ok2, loc,
+               "the literal segment ends at capture.start and the cursor is set to capture.end on "
+               "every iteration" if ok2 else
+               "the cursor is not moved to the end of the placeholder on every iteration (or the "
+               "literal does not stop at its start): placeholder text is copied or literals are lost")
     tail = [b for b in pushes if pushes[b][0] == "from" and b not in body]
     ok3 = bool(tail) and all(any(fa.dominates(b, u) for b in tail) for u in uses) and \
         any(b in fa.reachable(none_t) for b in tail)
@@ -785,6 +806,10 @@ def template_cover(ctx):
            "the text after the last placeholder is not appended before the expanded string is "
            "looked up: templates that differ only in their suffix share a feature id, and "
            "model.def lines with that suffix no longer match")
+    if undecided:
+        raise EngineError("TEMPLATE: the start of each literal segment is not a cursor variable set to "
+                          "capture.end (the captures are iterated together with another sequence): that "
+                          "clause is not decided")
 
 
 def sortcmp(ctx):
